@@ -160,7 +160,10 @@ def draw(gen):
             pairs = []
             for _ in range(rng.choice([0, 1, 1, 2, 4])):
                 r = rng.random()
-                if r < 0.6:
+                if r < 0.12:
+                    # history-dependent clause: a delta that may push existing stream windows above 2^31-1
+                    pairs.append((C.S_INITIAL_WINDOW_SIZE, rng.choice([MAXID, MAXID - 1, MAXID - 65535, 2 ** 30])))
+                elif r < 0.6:
                     k = rng.choice(list(SETTING_VALUES))
                     pairs.append((k, rng.choice(SETTING_VALUES[k])))
                 elif r < 0.8:
